@@ -19,6 +19,9 @@ pub struct Caller {
     pub start_ms: u64,
     pub beh: Behaviour,
     pub cancel: CancelSpec,
+    /// obtain the call future and drop it without ever polling it
+    #[serde(default)]
+    pub drop_unpolled: bool,
 }
 
 #[derive(Clone, Debug, Serialize, Deserialize, PartialEq)]
@@ -49,6 +52,7 @@ pub fn gen(rng: &mut Rng) -> Scn {
             start_ms,
             beh: if faulty { gen_behaviour(rng, &[0, 5, 10, 10, 20, 30, 60], 20, 8, 4) } else { gen_behaviour(rng, &[0, 5, 10, 10, 20, 30, 60], 15, 0, 0) },
             cancel: if faulty { gen_cancel(rng, start_ms, 25) } else { CancelSpec::Never },
+            drop_unpolled: faulty && rng.chance(1, 10),
         });
     }
     Scn {
@@ -123,6 +127,7 @@ pub fn run(s: &Scn, ctx: &mut RunCtx) -> RunOutput {
         for i in 0..=n {
             let (start_ms, cancel) = if i < n { (scn.callers[i].start_ms, scn.callers[i].cancel.to_cancel()) } else { (PROBE_AT, crate::exec::Cancel::Never) };
             let svc = base.clone();
+            let drop_unpolled = i < n && scn.callers[i].drop_unpolled;
             let make: Box<dyn FnOnce() -> LocalFut> = Box::new(move || {
                 Box::pin(async move {
                     let mut svc = svc;
@@ -137,7 +142,15 @@ pub fn run(s: &Scn, ctx: &mut RunCtx) -> RunOutput {
                     .await;
                     let r: Result<_, AdaptiveError<SimErr>> = match r {
                         Err(e) => Err(e),
-                        Ok(()) => svc.call(Req { id: i as u32, key: 0 }).await,
+                        Ok(()) => {
+                            let f = svc.call(Req { id: i as u32, key: 0 });
+                            if drop_unpolled {
+                                world::fault("drop_unpolled");
+                                drop(f);
+                                return Out::err("DroppedUnpolled", None);
+                            }
+                            f.await
+                        }
                     };
                     match r {
                         Ok(x) => Out::ok(x),
@@ -189,6 +202,9 @@ pub fn run(s: &Scn, ctx: &mut RunCtx) -> RunOutput {
     let mut had_fault = false;
     for (i, t) in rep.tasks.iter().enumerate() {
         match t.status {
+            Status::Resolved if t.out.as_ref().and_then(|o| o.err) == Some("DroppedUnpolled") => {
+                had_fault = true;
+            }
             Status::Cancelled => {
                 had_fault = true;
                 if calls.iter().any(|c| c.req == i as u32) {
